@@ -8,7 +8,7 @@ import re
 from ..cfg import build_cfg, calls_in, node_calls
 from ..core import Ctx, property_info, rule
 from ..model import AnalysisError, ClassInfo, FuncInfo, const_str, walk_no_nested
-from ..q import A, Dispatch, call_name_of, control_deps, flow_conditions, flows, names_from_calls, node_containing, raw_forms, expand_at, str_template, stores, unparse
+from ..q import A, Dispatch, leaf_conditions, reach_table, value_texts, call_name_of, control_deps, flow_conditions, flows, names_from_calls, node_containing, raw_forms, expand_at, str_template, stores, unparse
 
 DT = "xsdata.models.datatype"
 DATES = "xsdata.utils.dates"
@@ -176,7 +176,7 @@ def _kind(ctx: Ctx, fi: FuncInfo | None, e: ast.expr, mod, env: dict[str, str], 
             return "int"
         if isinstance(f, ast.Name) and f.id in ("float",):
             return "float"
-        if isinstance(f, ast.Name) and f.id in ("abs", "min", "max", "sum") and e.args:
+        if isinstance(f, ast.Name) and f.id in ("abs", "min", "max", "sum", "divmod") and e.args:  # divmod: the kind of both members of the pair
             k = "int"
             for a in e.args:
                 k = _join(k, _kind(ctx, fi, a, mod, env, depth + 1))
@@ -219,7 +219,7 @@ def _return_kind(ctx: Ctx, fi: FuncInfo, depth: int = 0) -> str:
             if isinstance(st, ast.AugAssign) and isinstance(st.op, ast.Div):
                 k = "float"
             if isinstance(st, ast.Assign) and isinstance(st.targets[0], (ast.Tuple, ast.List)):
-                k = "unknown" if not isinstance(val, ast.Tuple) else k
+                k = k if isinstance(val, ast.Tuple) or (isinstance(val, ast.Call) and isinstance(val.func, ast.Name) and val.func.id == "divmod") else "unknown"
             new = _join(env[tgt.id], k)
             if new != env[tgt.id]:
                 env[tgt.id] = new
@@ -658,12 +658,22 @@ def day_number_steps_in_order(ctx: Ctx) -> None:
     """_days_from_civil shifts January / February to the previous year BEFORE the 400-year era is split off; _timeline combines day number, time and offset as integers."""
     fi = ctx.repo.func(f"{DT}:_days_from_civil")
     g = build_cfg(fi.node)
-    shift = [g.node_of(st) for st, tgt, v in stores(fi.node) if isinstance(st, ast.AugAssign) and unparse(tgt) == "year" and isinstance(st.op, ast.Sub)]
-    mt = [t for t in g.nodes if t.kind == "test" and A(unparse(t.ast)) in (A("month <= 2"), A("month < 3"))]
-    era = [g.node_of(st) for st, tgt, v in stores(fi.node) if v is not None and "year" in {n.id for n in ast.walk(v) if isinstance(n, ast.Name)} and not (isinstance(st, ast.AugAssign) and unparse(tgt) == "year")]
-    ok = len(shift) == 1 and len(mt) == 1 and bool(era) and g.only_if(shift[0].id, mt[0].id, True) and all(e is not None and g.must_pass(g.entry, e.id, [mt[0].id]) for e in era)
-    ctx.ob("_days_from_civil: every value derived from `year` is computed after the Jan/Feb year shift", ok, at=fi, construct="year shift first",
-           msg="the era / year-of-era are split before the shift: January and February of years divisible by 400 land on the wrong day (2000-02-29 == 2000-03-01)")
+    # the operand the 400-year era is split from (x // 400, x % 400, divmod(x, 400)) must be the year shifted by one under month <= 2
+    operands: list[tuple[ast.AST, ast.expr]] = []
+    for x in walk_no_nested(fi.node):
+        if isinstance(x, ast.BinOp) and isinstance(x.op, (ast.FloorDiv, ast.Mod)) and isinstance(x.right, ast.Constant) and x.right.value == 400:
+            operands.append((x, x.left))
+        elif isinstance(x, ast.Call) and isinstance(x.func, ast.Name) and x.func.id == "divmod" and len(x.args) == 2 and isinstance(x.args[1], ast.Constant) and x.args[1].value == 400:
+            operands.append((x, x.args[0]))
+    if not operands:
+        raise AnalysisError("C06.R8: the 400-year era split of _days_from_civil was not found")
+    for where, op in operands:
+        n = node_containing(g, where)
+        fl = flows(fi, n, op) if n is not None else []
+        shifted = [(leaf, chain) for leaf, chain in fl if isinstance(leaf, ast.BinOp) and isinstance(leaf.op, ast.Sub) and isinstance(leaf.right, ast.Constant) and leaf.right.value == 1]
+        ok = any({("_<=2", True), ("_<3", True)} & leaf_conditions(fi, n, leaf, chain) for leaf, chain in shifted)
+        ctx.ob("_days_from_civil: the era is split from the year AFTER the Jan/Feb shift (year - 1 when month <= 2)", ok, at=fi, node=where, construct="year shift first",
+               msg="the era / year-of-era are split before the shift: January and February of years divisible by 400 land on the wrong day (2000-02-29 == 2000-03-01)")
     consts = {n.value for n in ast.walk(fi.node) if isinstance(n, ast.Constant) and isinstance(n.value, int)}
     ctx.ob("_days_from_civil uses the proleptic Gregorian constants (400, 146097, 365, 4, 100, 153)", {400, 146097, 365, 4, 100, 153} <= consts, at=fi, construct="calendar constants", msg=f"constants {sorted(consts)}")
     tl = ctx.repo.func(f"{DT}:_timeline")
@@ -674,3 +684,35 @@ def day_number_steps_in_order(ctx: Ctx) -> None:
         v = ctx.repo.module(DT).globals.get(name)
         val = v.value if isinstance(v, ast.Constant) else (-v.operand.value if isinstance(v, ast.UnaryOp) and isinstance(v.operand, ast.Constant) else None)
         ctx.ob(f"{name} = {want}", val == want, at=ctx.repo.module(DT), node=v, construct=f"const {name}", msg=f"{name} is {val}")
+
+
+@rule("C06.R9")
+def gyear_shape_ignores_the_offset(ctx: Ctx) -> None:
+    """XmlPeriod._parse_period tells gYearMonth from gYear by a '-' after the year digits - searched in the literal WITHOUT its timezone
+    offset: the '-' of a negative offset (2001-05:00) is not a month separator."""
+    fi = ctx.repo.func(f"{DT}:XmlPeriod._parse_period")
+    g = build_cfg(fi.node)
+
+    def fmt_calls(name: str):
+        return [n for n in g.stmts() for c in node_calls(n) if call_name_of(c) == "parse_date_args" and any(unparse(a) == f"DateFormat.{name}" for a in c.args)]
+
+    ym, y = fmt_calls("G_YEAR_MONTH"), fmt_calls("G_YEAR")
+    if len(ym) != 1 or len(y) != 1:
+        ctx.abstain("gYear / gYearMonth branches of _parse_period", at=fi)
+        return
+    deciders = [t for t in g.nodes if t.kind == "test" and ((g.only_if(ym[0].id, t.id, True) and g.only_if(y[0].id, t.id, False)) or (g.only_if(ym[0].id, t.id, False) and g.only_if(y[0].id, t.id, True)))]
+    seen = 0
+    for t in deciders:
+        for e in [expand_at(fi, t, t.ast, d) for d in (0, 1, 2, 3)]:
+            for c in [x for x in ast.walk(e) if isinstance(x, ast.Call) and isinstance(x.func, ast.Attribute) and x.func.attr in ("find", "rfind", "index", "rindex", "count")
+                      and x.args and isinstance(x.args[0], ast.Constant) and x.args[0].value == "-"]:
+                recv = c.func.value
+                seen += 1
+                params = {a.arg for a in fi.params}
+                whole = isinstance(recv, ast.Name) and any(isinstance(leaf, ast.Name) and leaf.id in params and not chain for leaf, chain in flows(fi, t, recv))
+                ctx.ob("_parse_period looks for the month separator in the literal without its timezone offset", not whole, at=fi, node=t.ast, construct="month separator search",
+                       msg="the '-' is searched in the whole literal: a gYear with a negative offset (2001-05:00) is taken for a gYearMonth and rejected")
+            if seen:
+                break
+    if not seen:
+        ctx.abstain("month separator test of _parse_period", at=fi)
